@@ -379,6 +379,9 @@ def render_mutation(m):
             args.append('model_names=%s' % pyval(m['model_names']))
         return 'RenameAppLabel(%s)' % ', '.join(args)
     if op == 'SQLMutation':
+        if m.get('raw'):
+            # no update_func: the evolution cannot be simulated
+            return 'SQLMutation(%s, %s)' % (pyval(m['tag']), pyval(m['sql']))
         return 'SQLMutation(%s, %s, update_func=_noop)' % (
             pyval(m['tag']), pyval(m['sql']))
     if op == 'MoveToDjangoMigrations':
